@@ -1,0 +1,70 @@
+//! Wrappers for the SUB-side subscription trie and the filtered pipe sender.
+use crate::message::FrameBatch;
+use crate::socket::patterns::{PipeMessageSender, ReadyPipeQueue, SubscriptionTrie};
+use fibre::TrySendError;
+use std::collections::VecDeque;
+use std::sync::Arc;
+
+pub struct VTrie(Arc<SubscriptionTrie>);
+
+impl VTrie {
+  pub fn new() -> Self {
+    Self(Arc::new(SubscriptionTrie::new()))
+  }
+  pub fn subscribe(&self, topic: &[u8]) {
+    self.0.subscribe(topic)
+  }
+  pub fn unsubscribe(&self, topic: &[u8]) -> bool {
+    self.0.unsubscribe(topic)
+  }
+  pub fn matches(&self, message_topic: &[u8]) -> bool {
+    self.0.matches(message_topic)
+  }
+  pub fn get_all_topics(&self) -> Vec<Vec<u8>> {
+    self.0.get_all_topics()
+  }
+}
+
+/// One `PipeMessageSender::FilteredAnonymous` registered on a private `ReadyPipeQueue`, built the
+/// way `AnonymousIngressEngine::register_pipe_filtered` builds it for a SUB socket.
+pub struct VFilteredPipe {
+  queue: ReadyPipeQueue<FrameBatch>,
+  sender: PipeMessageSender,
+}
+
+impl VFilteredPipe {
+  pub fn new(trie: &VTrie, capacity: usize, drain_delta: usize) -> Self {
+    let queue = ReadyPipeQueue::new(4);
+    let sender = queue.register_pipe(0, capacity, drain_delta);
+    let sender = PipeMessageSender::FilteredAnonymous { sender, trie: trie.0.clone() };
+    Self { queue, sender }
+  }
+  /// `PipeMessageSender::send`; only call it when the pipe has room (it awaits otherwise).
+  pub async fn send(&self, batch: FrameBatch) -> bool {
+    self.sender.send(batch).await.is_ok()
+  }
+  /// 0 = Ok, 1 = Full (item returned), 2 = Closed (item returned)
+  pub fn try_send_sync(&self, batch: FrameBatch) -> u8 {
+    match self.sender.try_send_sync(batch) {
+      Ok(()) => 0,
+      Err(TrySendError::Full(_)) => 1,
+      Err(_) => 2,
+    }
+  }
+  pub fn try_send_batch(&self, items: &mut VecDeque<FrameBatch>) -> usize {
+    self.sender.try_send_batch(items)
+  }
+  pub fn capacity(&self) -> usize {
+    self.sender.capacity()
+  }
+  pub fn len(&self) -> usize {
+    self.sender.len()
+  }
+  pub fn try_pop(&self) -> Option<FrameBatch> {
+    self.queue.try_pop().map(|(_, b)| b)
+  }
+  /// drops the slot: `sender.slot.upgrade()` is `None` afterwards
+  pub fn deregister(&self) {
+    self.queue.deregister_pipe(0)
+  }
+}
